@@ -253,6 +253,9 @@ func runC20(ctx *runCtx) {
 	rep := ctx.rep
 	rep.Rule = "histories of 0..4 operations from {write, read, ping, CloseRead, NetConn, abandoned Reader, abandoned Writer} ended by {Close, CloseNow, peer Close, protocol error, context expiry, transport failure, a Close still running in another goroutine} and followed by Close, CloseNow or a Close whose code / reason cannot be sent (also as the only closing call), both roles, the peer echoing Close frames at once or after 250-400 ms (a close handshake is then in progress during the final call), also after CloseRead + an unsolicited data message; run one at a time; " +
 		"oracle: the number of live goroutines whose stack is in Conn.timeoutLoop or the CloseRead goroutine is not higher after the final call returned than before the connection was created, and the context returned by CloseRead is cancelled. distinct = history"
+	if cirTraceReplay(ctx) {
+		return
+	}
 	if ctx.replay != "" {
 		var cc c20Case
 		if err := loadReplay(ctx.replay, &cc); err == nil && cc.End != "" {
@@ -337,6 +340,7 @@ func runC20(ctx *runCtx) {
 			rep.violate(Violation{Kind: "property", Shape: sh + ":" + cc.End, What: w, Replay: cc})
 		}
 	}
+	cirTraceValidation(ctx, cirTraceN(ctx))
 	rep.sample(cases[0])
 	rep.sample(cases[len(cases)-1])
 }
